@@ -904,6 +904,14 @@ impl<T> Sut<T> {
     pub fn new(t: T) -> Self {
         Sut(std::mem::ManuallyDrop::new(t))
     }
+
+    /// hand the object back (it is dropped like any other value from then on)
+    pub fn into_inner(mut self) -> T {
+        // SAFETY: the value is taken exactly once and `self` is forgotten, so `Drop` never sees it
+        let t = unsafe { std::mem::ManuallyDrop::take(&mut self.0) };
+        std::mem::forget(self);
+        t
+    }
 }
 
 impl<T> Drop for Sut<T> {
